@@ -192,6 +192,7 @@ type Task struct {
 	cancel        context.CancelFunc
 	Cancelled     bool // the client went away (request context cancelled) while the request was in flight
 	Dep0          string // World.depStamp when the request was sent
+	TWrite        time.Time // simulated instant of the first WriteHeader / Write of the reply (zero: nothing written)
 	// the entity registered for the application of the stored request this callback read, when no storage mutation happened
 	// during the whole life of the request (what the Audience must be even if the library answered from a cache of its own)
 	StableAudience    string
@@ -272,6 +273,7 @@ func (w *RecWriter) WriteHeader(code int) {
 		return
 	}
 	w.wroteHeader = true
+	w.task.TWrite = time.Now() // the instant the reply starts to leave the IdP (simulated clock)
 	w.status = code
 	w.snapHdr = w.hdr.Clone()
 }
@@ -537,6 +539,20 @@ func newWorld(t *testing.T, plan *Plan) *World {
 	if w.cfg.Replicas < 1 {
 		w.cfg.Replicas = 1
 	}
+	// users with a large attribute are expanded here, on a copy: the plan (and a replay file written from it) keeps the short form
+	users := make([]UserCfg, len(w.cfg.Users))
+	copy(users, w.cfg.Users)
+	for i := range users {
+		if users[i].BigN > 0 {
+			ca := CustomAttrCfg{Name: "groups-" + userMarker(i), Friendly: "memberOf"}
+			for k := 0; k < users[i].BigN; k++ {
+				h := sha256.Sum256([]byte(fmt.Sprintf("%s/%d", userMarker(i), k)))
+				ca.Values = append(ca.Values, "cn="+hex.EncodeToString(h[:14])+","+userMarker(i))
+			}
+			users[i].Custom = append(append([]CustomAttrCfg(nil), users[i].Custom...), ca)
+		}
+	}
+	w.cfg.Users = users
 	var seed [32]byte
 	for i := 0; i < 8; i++ {
 		seed[i] = byte(w.cfg.UUIDKey >> (8 * i))
@@ -1451,6 +1467,17 @@ func (s *simStorage) enter(ctx context.Context, op string, args ...string) (*Tas
 			fault = t.Msg.FaultKind
 		}
 	}
+	if t != nil && fault == "" && s.w.cfg.CtxAware && ctx.Err() != nil && !t.Abandoned {
+		// storage flavour: a storage that honours the context it is given (database/sql does) gives up with the context's error
+		// once that context is done — whether the client went away, a server deadline passed, or the library itself put a
+		// deadline of its own around this call and the simulated clock moved past it while the call was parked
+		if errors.Is(ctx.Err(), context.DeadlineExceeded) {
+			fault = "err_deadline"
+		} else {
+			fault = "err_canceled"
+		}
+		s.w.probe("storage_gave_up_with_context_error")
+	}
 	fault = normFault(op, fault)
 	rec := &CallRec{Op: op, Args: args, Fault: fault, SPIdx: -2, UserIdx: -1, KeyVer: -1}
 	if t != nil {
@@ -1585,7 +1612,22 @@ func (s *simStorage) GetMetadataSigningKey(ctx context.Context) (*key.Certificat
 	ver := s.w.metaKeyVer
 	s.w.mu.Unlock()
 	rec.KeyVer = ver
-	return s.keyResult(rec, fault, s.w.metaKey(ver))
+	return s.keyResult(rec, fault, s.w.metaKey(ver+s.tenantShift(ctx)))
+}
+
+// tenantShift: storage flavour "keys per tenant". A multi-tenant storage finds its tenant in the values of the context the
+// library passes on (the issuer the interceptor put there); a call that arrives without it — a detached context, a
+// context.Background() in a goroutine the library starts — is answered with the key of the default tenant, which is another
+// key. The version recorded for the call stays the one the request's own tenant has, so that every oracle expects that key.
+func (s *simStorage) tenantShift(ctx context.Context) int {
+	if !s.w.cfg.TenantKeys || shadowFrom(ctx) != nil {
+		return 0
+	}
+	if provider.IssuerFromContext(ctx) != "" {
+		return 0
+	}
+	s.w.probe("key_read_without_tenant_in_context")
+	return 1
 }
 
 func (s *simStorage) GetResponseSigningKey(ctx context.Context) (*key.CertificateAndKey, error) {
@@ -1595,7 +1637,7 @@ func (s *simStorage) GetResponseSigningKey(ctx context.Context) (*key.Certificat
 	ver := s.w.respKeyVer
 	s.w.mu.Unlock()
 	rec.KeyVer = ver
-	return s.keyResult(rec, fault, s.w.respKey(ver))
+	return s.keyResult(rec, fault, s.w.respKey(ver+s.tenantShift(ctx)))
 }
 
 func (s *simStorage) GetEntityByID(ctx context.Context, entityID string) (*serviceprovider.ServiceProvider, error) {
